@@ -497,7 +497,8 @@ def l_percentile(xs, q):
         raise Unsupported("symbolic percentile level")
     n = len(xs)
     if n == 0:
-        return float("nan")
+        # the installed NumPy (2.x) does not return NaN here
+        raise IndexError("index -1 is out of bounds for axis 0 with size 0")
     if not (0 <= q <= 100):
         raise ValueError("Percentiles must be in the range [0, 100]")
     _no_inf(xs, "percentile")
@@ -516,7 +517,7 @@ def l_quantile_nu(xs, q):
         raise Unsupported("symbolic quantile level")
     n = len(xs)
     if n == 0:
-        return float("nan")
+        raise IndexError("index -1 is out of bounds for axis 0 with size 0")     # as the installed NumPy (2.x)
     if not (0 <= q <= 1):
         raise ValueError("Quantiles must be in the range [0, 1]")
     _no_inf(xs, "quantile")
